@@ -184,7 +184,7 @@ impl Sut for DieselFn {
 
 #[derive(Default)]
 struct Gate {
-    out: Mutex<Option<bool>>,
+    out: Mutex<Option<u8>>,
     cv: Condvar,
     started: AtomicBool,
     finished: AtomicBool,
@@ -306,7 +306,7 @@ pub fn run_path<S: Sut>(cfg: &Cfg, path: &PathRec<Post>, record: bool) -> (PathR
             damaged: BTreeMap::new(),
             bad_handouts: 0,
         };
-        let mut will_panic: BTreeMap<u32, bool> = BTreeMap::new();
+        let mut will_panic: BTreeMap<u32, u8> = BTreeMap::new();
         let mut n = 0usize;
         let mut prev_held: Vec<u32> = vec![];
         let ev = |w: &World<S>, n: usize, k: &str, act: &str, probe: i64| -> String {
@@ -324,7 +324,15 @@ pub fn run_path<S: Sut>(cfg: &Cfg, path: &PathRec<Post>, record: bool) -> (PathR
         for (si, st) in path.steps.iter().enumerate() {
             res.steps = si + 1;
             let c = st.x.first().and_then(|v| v.as_u64()).unwrap_or(0) as u32;
-            let out_panic = st.x.get(1).and_then(|v| v.as_str()).unwrap_or("ok") == "panic";
+            let out_str = st.x.get(1).and_then(|v| v.as_str()).unwrap_or("ok").to_string();
+            let out_panic = out_str == "panic";
+            // how a closure that outlives its interact() ends: 0 ok, 1 panic, 2 breaks, 3 invalidates the connection
+            let out_code: u8 = match out_str.as_str() {
+                "panic" => 1,
+                "break" => 2,
+                "invalid" => 3,
+                _ => 0,
+            };
             match st.a.as_str() {
                 "Get" => w.get(false).await,
                 "GetResume" => w.get(true).await,
@@ -359,9 +367,9 @@ pub fn run_path<S: Sut>(cfg: &Cfg, path: &PathRec<Post>, record: bool) -> (PathR
                     if let Some(o) = w.held.get(&c) {
                         let g = Arc::new(Gate::default());
                         w.gates.insert(c, g.clone());
-                        will_panic.insert(c, out_panic);
+                        will_panic.insert(c, out_code);
                         let g2 = g.clone();
-                        let mut f = Box::pin(o.interact(move |_c| {
+                        let mut f = Box::pin(o.interact(move |conn| {
                             g2.started.store(true, Ordering::SeqCst);
                             let mut o = g2.out.lock().unwrap();
                             while o.is_none() {
@@ -369,8 +377,13 @@ pub fn run_path<S: Sut>(cfg: &Cfg, path: &PathRec<Post>, record: bool) -> (PathR
                             }
                             let p = o.unwrap();
                             drop(o);
+                            match p {
+                                2 => S::break_conn(conn),
+                                3 => S::invalidate(conn),
+                                _ => {}
+                            }
                             g2.finished.store(true, Ordering::SeqCst);
-                            if p {
+                            if p == 1 {
                                 panic!("{}", INJECTED)
                             }
                         }));
@@ -385,7 +398,7 @@ pub fn run_path<S: Sut>(cfg: &Cfg, path: &PathRec<Post>, record: bool) -> (PathR
                 }
                 "Finish" => {
                     if let Some(g) = w.gates.remove(&c) {
-                        let p = *will_panic.get(&c).unwrap_or(&false);
+                        let p = *will_panic.get(&c).unwrap_or(&0);
                         *g.out.lock().unwrap() = Some(p);
                         g.cv.notify_all();
                         let t0 = Instant::now();
@@ -394,8 +407,17 @@ pub fn run_path<S: Sut>(cfg: &Cfg, path: &PathRec<Post>, record: bool) -> (PathR
                         }
                         // let the panic unwind and poison the mutex
                         tokio::time::sleep(Duration::from_millis(2)).await;
-                        if p {
-                            w.damaged.insert(c, "panic");
+                        match p {
+                            1 => {
+                                w.damaged.insert(c, "panic");
+                            }
+                            2 => {
+                                w.damaged.insert(c, "broken");
+                            }
+                            3 => {
+                                w.damaged.insert(c, "invalid");
+                            }
+                            _ => {}
                         }
                     }
                 }
@@ -436,15 +458,24 @@ pub fn run_path<S: Sut>(cfg: &Cfg, path: &PathRec<Post>, record: bool) -> (PathR
         // drain: finish closures, resume a waiting get, return everything, then probe capacity
         let gates: Vec<(u32, Arc<Gate>)> = w.gates.iter().map(|(k, v)| (*k, v.clone())).collect();
         for (c, g) in gates {
-            let p = *will_panic.get(&c).unwrap_or(&false);
+            let p = *will_panic.get(&c).unwrap_or(&0);
             *g.out.lock().unwrap() = Some(p);
             g.cv.notify_all();
             let t0 = Instant::now();
             while !g.finished.load(Ordering::SeqCst) && t0.elapsed() < LONG {
                 tokio::time::sleep(Duration::from_micros(200)).await;
             }
-            if p {
-                w.damaged.insert(c, "panic");
+            match p {
+                1 => {
+                    w.damaged.insert(c, "panic");
+                }
+                2 => {
+                    w.damaged.insert(c, "broken");
+                }
+                3 => {
+                    w.damaged.insert(c, "invalid");
+                }
+                _ => {}
             }
         }
         tokio::time::sleep(Duration::from_millis(2)).await;
